@@ -99,8 +99,25 @@ pub async fn restore(
         monitor.clone(),
     );
     let mut deferrals = Vec::new();
+    // Symlinks restored so far. Nothing may be restored beneath one of them: writing
+    // through the link would land outside the destination. This can't happen within one
+    // tree, but the listing of an incomplete version is stitched from several.
+    let mut restored_symlinks: Vec<Apath> = Vec::new();
     while let Some(entry) = stitch.next().await {
         task.set_name(format!("Restore {}", entry.apath));
+        if let Some(link) = restored_symlinks
+            .iter()
+            .find(|link| *link != &entry.apath && link.is_prefix_of(&entry.apath))
+        {
+            monitor.error(Error::InvalidMetadata {
+                details: format!(
+                    "Not restoring {:?} because {:?} was restored as a symlink",
+                    entry.apath(),
+                    link
+                ),
+            });
+            continue;
+        }
         let path = destination.join(&entry.apath[1..]);
         match entry.kind() {
             Kind::Dir => {
@@ -137,6 +154,7 @@ pub async fn restore(
                     monitor.error(err);
                     continue;
                 }
+                restored_symlinks.push(entry.apath.clone());
             }
             Kind::Unknown => {
                 monitor.error(Error::InvalidMetadata {
